@@ -699,6 +699,23 @@ def rule_r11(ctx) -> List[R.Inst]:
     defaulted = any(isinstance(n, ast.If) and "offset" in unparse(n.test) and "None" in unparse(n.test) and any(
         isinstance(x, ast.Assign) and unparse(x.targets[0]).endswith(".offset") for x in n.body)
         for f_ in (rm, fn) for n in ast.walk(f_.node))
+    # (d) header values: everything after the FIRST ':' is the value
+    hs = [n for n in ast.walk(rm.node) if isinstance(n, ast.Call) and isinstance(n.func, ast.Attribute) and n.func.attr == "split" and
+          n.args and isinstance(n.args[0], ast.Constant) and n.args[0].value == ":"]
+    if not hs:
+        insts.append(R.undec(rid, "header-value-split", M.mods[rm.mod].rel, rm.node.lineno, "split(':') of a header token not found"))
+    else:
+        h = hs[0]
+        bounded = len(h.args) > 1 or any(k.arg == "maxsplit" for k in h.keywords)
+        rejoin = any(isinstance(n, ast.Call) and isinstance(n.func, ast.Attribute) and n.func.attr == "join" and
+                     isinstance(n.func.value, ast.Constant) and n.func.value.value == ":" for n in ast.walk(rm.node))
+        if bounded or rejoin:
+            insts.append(R.ok(rid, "header-value-split", M.mods[rm.mod].rel, h.lineno, idiom="value = everything after the first ':'"))
+        else:
+            insts.append(R.viol(rid, "header-value-split", M.mods[rm.mod].rel, h.lineno,
+                                "a header token is cut at EVERY ':' and the value is the second piece: '#TITLE:Re:Zero' is read as 'Re', "
+                                "'#DISPLAYBPM:120:180' as '120' — header fields are not read back unchanged",
+                                construct="split(':') unbounded, value = s[1]"))
     numeric = isinstance(dflt, ast.Constant) and isinstance(dflt.value, (int, float)) and not isinstance(dflt.value, bool)
     if numeric or defaulted:
         insts.append(R.ok(rid, "offset-default", M.mods[rm.mod].rel, rm.node.lineno, idiom="a file without #OFFSET starts at 0"))
@@ -726,7 +743,7 @@ SPECS = [
     RuleSpec("C02.R9", rule_r9, 4, "A7", "row position shapes: beat slice bounds, fraction inside the beat, Snap arguments"),
     RuleSpec("C02.R8", rule_r8, 6, "A3", "every chart gets its own list objects (fresh defaults per instance)"),
     RuleSpec("C02.R10", rule_r10, 1, "A8", "every collected position is put into the position -> ms table the expanders look up"),
-    RuleSpec("C02.R11", rule_r11, 3, "A8", "comments removed before structural splits; rows stripped; #OFFSET defaults to 0"),
+    RuleSpec("C02.R11", rule_r11, 4, "A8", "comments removed before structural splits; rows stripped; #OFFSET defaults to 0"),
     RuleSpec("C02.D", rule_dep, 1, "M0", "rules of the shared code (timing engine, list classes, stacker) that the operations of this property reach"),
 ]
 
